@@ -5,7 +5,7 @@ import json, os, subprocess, sys, glob, collections
 HERE = os.path.abspath(os.path.join(os.path.dirname(__file__), ".."))
 prop = sys.argv[1]
 tier = sys.argv[2] if len(sys.argv) > 2 else "quick"
-env = dict(os.environ, PVM_TRIAGE="1", PVM_KEEP="1", PVM_MAX_KEEP="1000000", PVM_EVIDENCE="/dev/null")
+env = dict(os.environ, PVM_TRIAGE="1", PVM_KEEP="1", PVM_MAX_KEEP="1000000", PVM_PER_KEY_KEEP="1000000", PVM_EVIDENCE="/dev/null")
 subprocess.run([os.path.join(HERE, "check"), prop, tier], env=env, stdout=subprocess.DEVNULL)
 dirs = sorted(glob.glob(os.path.join(HERE, "out", "shards", f"{prop}-{tier}-*")), key=os.path.getmtime)
 d = dirs[-1]
